@@ -101,3 +101,35 @@ Theorem unitary_iter_value_refuted :
 Proof. exists QcScalar, Tex, "U", [], sq_term, (Term 1 []), env0.
   split; [vm_compute; reflexivity|]. split; [apply Tex_orthogonal|].
   intros H. apply (f_equal this) in H. vm_compute in H. discriminate H. Qed.
+
+(* ---------- (b) the follow-up delta evaluation ignores the provided targets ----------
+   simplify_unitary(Expr(U_pq U_pr T_q, target_idx=(q, r)), 'U', evaluate_deltas=True)
+   returns T_r: func.evaluate_deltas is called on res.sympy without the provided
+   targets, re-derives "r is the only target" and substitutes q -> r. *)
+Definition ed_term := Term 1 [Tn "T" [iq]; U ip iq; U ip ir].
+Example ed_as_coded_run :
+  simplify_ed_as_coded 3 "U" (Some [iq; ir]) ed_term = Some (Term 1 [Tn "T" [ir]]).
+Proof. vm_compute. reflexivity. Qed.
+Example ed_respecting_run :
+  simplify_ed_respecting 3 "U" (Some [iq; ir]) ed_term
+  = Some (Term 1 [(ADelta iq ir, false); Tn "T" [iq]]).
+Proof. vm_compute. reflexivity. Qed.
+Definition env_qr : env := fun x => if index_eqb x ir then 1%nat else 0%nat.
+
+Theorem simplify_ed_as_coded_refuted :
+  exists (S : Scalar) (T : tmodel S) name tg t t' r0,
+    simplify_ed_as_coded 3 name (Some tg) t = Some t' /\
+    (forall sp sn, orthogonal S T name (rng T sp sn)) /\
+    (forall x, In x tg -> In (r0 x) (irange S T x)) /\
+    eval_term S T tg r0 t <> eval_term S T tg r0 t'.
+Proof. exists QcScalar, Tex, "U", [iq; ir], ed_term, (Term 1 [Tn "T" [ir]]), env_qr.
+  split; [vm_compute; reflexivity|]. split; [apply Tex_orthogonal|].
+  split; [intros x [<-|[<-|[]]]; vm_compute; auto|].
+  intros H. apply (f_equal this) in H. vm_compute in H. discriminate H. Qed.
+
+(* with the provided targets handed on, the same input keeps its value *)
+Example simplify_ed_respecting_value :
+  exists t', simplify_ed_respecting 3 "U" (Some [iq; ir]) ed_term = Some t' /\
+    eval_term QcScalar Tex [iq; ir] env_qr ed_term = eval_term QcScalar Tex [iq; ir] env_qr t' /\
+    eval_term QcScalar Tex [iq; ir] env0 ed_term = eval_term QcScalar Tex [iq; ir] env0 t'.
+Proof. eexists. split; [vm_compute; reflexivity|]. split; apply Qc_is_canon; vm_compute; reflexivity. Qed.
